@@ -416,3 +416,13 @@ func VerifScan(path string) (recs []VerifRec, broken uint32, err error) {
 	}
 	return recs, broken, fmt.Errorf("scan did not terminate")
 }
+
+// VerifLimitDumper cuts the periodic dumper's walk over the 998 chunk slots to slots 0..n. Slots above the head
+// chunk hold no hints: their iterations only lock and unlock an empty slot. (GC sets the same field during a pass.)
+func (store *HStore) VerifLimitDumper(n int) {
+	for _, bkt := range store.buckets {
+		if bkt.State == BUCKET_STAT_READY && bkt.hints != nil {
+			bkt.hints.maxDumpableChunkID = n
+		}
+	}
+}
